@@ -33,6 +33,22 @@ def one(sid, suite):
         return
     mp = os.path.join(sd, 'meta.json')
     meta = json.load(open(mp))
+    if res.get('demo_patched_rc') == 0 and res.get('apply_rc') == 0 and \
+            meta.get('confirmed', {}).get('demo_on_patched_worktree_rc'):
+        # the change was confirmed earlier but no longer breaks the property
+        # on the current tree (a later repair of /repo took its lever away):
+        # keep the earlier results, record the fact
+        head = subprocess.run(['git', '-C', '/repo', 'log', '-1',
+                               '--format=%h'], capture_output=True,
+                              text=True).stdout.strip()
+        meta['superseded'] = ('on /repo %s the demonstration passes with '
+                              'the patch applied: a repair made after this '
+                              'variant was confirmed removed what it relied '
+                              'on; the results below are from the tree it '
+                              'was written against' % head)
+        json.dump(meta, open(mp, 'w'), indent=1, sort_keys=True)
+        print(sid, 'SUPERSEDED', flush=True)
+        return
     conf = meta.setdefault('confirmed', {})
     conf['demo_on_pristine_worktree_rc'] = res.get('demo_pristine_rc')
     conf['demo_on_patched_worktree_rc'] = res.get('demo_patched_rc')
